@@ -44,3 +44,16 @@ M22 = M2 + (s2 - (m + m2) * s1 + k * m * m2)
 prove('C12 Welford batch step', H, And(m2 * (n + k) == S1 + s1, M22 * (n + k) == (S2 + s2) * (n + k) - (S1 + s1) ** 2), 'unsat')
 M22bad = M2 + (s2 - 2 * m * s1 + k * m * m)   # mutant: delta_1 * delta_1
 prove('C12 mutant (delta_1*delta_1)', H, M22bad * (n + k) == (S2 + s2) * (n + k) - (S1 + s1) ** 2, 'sat')
+
+# --- C13: weighted quantile.  sx sorted, sw >= 0, cum prefix sums, k with cum(k) < alpha <= cum(k+1), q = sx(k).
+#     Wle / Wlt are the total weights of {x <= q} / {x < q}; lemma L2 (Lean) enters as two explicit instances.
+sx, sw, cum = [Function(x, IntSort(), RealSort()) for x in ('sx', 'sw', 'cum')]
+m_, k_, t_, u_ = Ints('m k t u'); alpha, Wle, Wlt = Reals('alpha Wle Wlt'); q_ = sx(k_)
+H = [m_ >= 1, 0 <= k_, k_ < m_, ForAll([t_, u_], Implies(And(0 <= t_, t_ <= u_, u_ < m_), sx(t_) <= sx(u_))),
+     Implies(ForAll([t_], Implies(And(0 <= t_, t_ < k_ + 1), sx(t_) <= q_)), Wle >= cum(k_ + 1)),          # L2a: prefix [0,k] inside {x <= q}
+     Implies(ForAll([t_], Implies(And(0 <= t_, t_ < m_, sx(t_) < q_), t_ < k_)), Wlt <= cum(k_))]          # L2b: {x < q} inside prefix [0,k)
+prove('C13 quantile: W(x<=q) >= alpha and W(x<q) <= alpha', H + [cum(k_) < alpha, alpha <= cum(k_ + 1)], And(Wle >= alpha, Wlt <= alpha), 'unsat')
+prove('C13 quantile, edit `cum[:-1] <= alpha` (equivalent: still holds)', H + [cum(k_) <= alpha, alpha <= cum(k_ + 1)], And(Wle >= alpha, Wlt <= alpha), 'unsat')
+c0, c1, c2 = Reals('c0 c1 c2')        # finitised m = 2: the index search `[0][0]` needs some k with cum(k) < alpha OP cum(k+1)
+prove('C13 quantile, original `<=`: an index always exists (L3, m=2)', [c0 == 0, c0 <= c1, c1 <= c2, c2 == 1, 0 < alpha, alpha <= 1], Or(And(c0 < alpha, alpha <= c1), And(c1 < alpha, alpha <= c2)), 'unsat')
+prove('C13 quantile, mutant `alpha < cum[1:]`: no index for alpha on a boundary', [c0 == 0, c0 <= c1, c1 <= c2, c2 == 1, 0 < alpha, alpha <= 1], Or(And(c0 < alpha, alpha < c1), And(c1 < alpha, alpha < c2)), 'sat')
